@@ -361,7 +361,7 @@ func TestC03KEM(t *testing.T) {
 	for _, im := range impls() {
 		im := im
 		t.Run(im.name, func(t *testing.T) {
-			vlib.Check(t, vlib.N(150, 400), func(t *rapid.T) { kemCase(t, im) })
+			vlib.Check(t, vlib.N(100, 300), func(t *rapid.T) { kemCase(t, im) })
 		})
 	}
 }
@@ -506,7 +506,7 @@ func TestC03PKE(t *testing.T) {
 	for _, im := range pkeImpls() {
 		im := im
 		t.Run(im.name, func(t *testing.T) {
-			vlib.Check(t, vlib.N(150, 400), func(t *rapid.T) { pkeCase(t, im) })
+			vlib.Check(t, vlib.N(100, 300), func(t *rapid.T) { pkeCase(t, im) })
 		})
 	}
 }
@@ -691,7 +691,7 @@ func TestC03Parse(t *testing.T) {
 	for _, im := range impls() {
 		im := im
 		t.Run(im.name, func(t *testing.T) {
-			vlib.Check(t, vlib.N(200, 600), func(t *rapid.T) { parseCase(t, im) })
+			vlib.Check(t, vlib.N(140, 500), func(t *rapid.T) { parseCase(t, im) })
 		})
 	}
 }
